@@ -438,7 +438,7 @@ Proof.
   rewrite nr_fate_code_is_spec by assumption. reflexivity.
 Qed.
 
-Lemma dp_values_query_adj : forall cfg req, dp_query (sp_adjusted cfg req) = dp_query (m_opts req).
+Lemma dp_values_query_adj : forall cfg req, dp_query cfg (sp_adjusted cfg req) = dp_query cfg (m_opts req).
 Proof.
   intros cfg req. unfold dp_query.
   assert (H : dp_values DP_URI_QUERY (sp_adjusted cfg req) = dp_values DP_URI_QUERY (m_opts req)).
@@ -467,8 +467,8 @@ Theorem handler_sees_request : forall cfg req,
   map fst (sp_adjusted cfg req) = map fst (m_opts req) /\
   (forall n, n <> DP_BLOCK2 -> n <> DP_HOP_LIMIT ->
              dp_values n (sp_adjusted cfg req) = dp_values n (m_opts req)) /\
-  dp_uri_path (sp_adjusted cfg req) = dp_uri_path (m_opts req) /\
-  dp_query (sp_adjusted cfg req) = dp_query (m_opts req) /\
+  dp_uri_path cfg (sp_adjusted cfg req) = dp_uri_path cfg (m_opts req) /\
+  dp_query cfg (sp_adjusted cfg req) = dp_query cfg (m_opts req) /\
   m_payload (sp_req' cfg req) = m_payload req /\ m_token (sp_req' cfg req) = m_token req /\
   m_code (sp_req' cfg req) = m_code req /\ m_type (sp_req' cfg req) = m_type req /\
   m_mid (sp_req' cfg req) = m_mid req.
@@ -501,7 +501,7 @@ Theorem handler_call : forall cfg h mc req,
   sp_target cfg req <> TWellKnown ->
   dp_calls (sp_handler_out cfg h mc req) =
   [mkHreq (dp_target_rid (sp_target cfg req)) (m_code req) (sp_req' cfg req)
-          (dp_query (m_opts req))].
+          (dp_query cfg (m_opts req))].
 Proof.
   intros cfg h mc req Hwk. unfold sp_handler_out, dp_invoke.
   rewrite <- (dp_values_query_adj cfg req).
@@ -535,7 +535,7 @@ Theorem wellknown_out : forall cfg h mc req,
   sp_handler_out cfg h mc req =
   dp_finish cfg mc (sp_req' cfg req) (Some NR_F_HAS_MCAST) false false
     (mkMsg (dp_resp_type req) 69 (m_mid req) (m_token req) [(DP_CONTENT_FORMAT, [40])]
-           (c_wk cfg (dp_query (m_opts req)))).
+           (c_wk cfg (dp_query cfg (m_opts req)))).
 Proof.
   intros cfg h mc req Et Hb. unfold sp_handler_out, dp_invoke. rewrite Et.
   change (m_opts (sp_req' cfg req)) with (sp_adjusted cfg req).
@@ -547,7 +547,7 @@ Theorem handler_out_is : forall cfg h mc req,
   (m_type req = NR_CON \/ m_type req = NR_NON) ->
   (match sp_target cfg req with TRes _ | TUnknown _ _ => True | _ => False end) ->
   let i := mkHreq (dp_target_rid (sp_target cfg req)) (m_code req) (sp_req' cfg req)
-                  (dp_query (m_opts req)) in
+                  (dp_query cfg (m_opts req)) in
   let r := h i in
   nr_std_code (hr_code r) -> hr_code r <> 168 ->
   sp_handler_out cfg h mc req =
@@ -563,7 +563,7 @@ Theorem handler_out_is : forall cfg h mc req,
   end.
 Proof.
   intros cfg h mc req Hty Ht. cbv zeta.
-  assert (Hq : dp_query (m_opts (sp_req' cfg req)) = dp_query (m_opts req))
+  assert (Hq : dp_query cfg (m_opts (sp_req' cfg req)) = dp_query cfg (m_opts req))
     by apply dp_values_query_adj.
   assert (Hnr : dp_noresp_of (sp_req' cfg req) = dp_noresp_of req).
   { unfold dp_noresp_of. change (m_opts (sp_req' cfg req)) with (sp_adjusted cfg req).
@@ -698,7 +698,8 @@ Qed.
 (* ---- non-vacuity: concrete servers and requests ---- *)
 Definition ex_handler (_ : dp_hreq) : dp_hresp := mkHresp 69 [(12, [0])] [104; 105].
 Definition ex_cfg : dp_cfg :=
-  mkCfg true [] [mkRes [97] 1 8; mkRes [98] 3 0] (Some (4, 0)) None (fun _ => [60; 47; 97; 62]).
+  mkCfg true [] [mkRes [97] 1 8; mkRes [98] 3 0] (Some (4, 0)) None (fun _ => [60; 47; 97; 62])
+        dp_unescaped_path dp_unescaped_query.
 Definition ex_get (ty : Z) (path : bytes) (extra : list opt) : msg :=
   mkMsg ty 1 4660 [170; 187] ((11, path) :: extra) [].
 
@@ -742,7 +743,7 @@ Example ex_rules :
   dp_serve ex_cfg ex_handler false (mkMsg 0 2 1 [] [(5, []); (11, [98])] []) =
     [EvTx true (mkMsg 2 140 1 [] [] [])] /\
   (* FETCH without Content-Format (a FETCH handler exists on /f) *)
-  dp_serve (mkCfg false [] [mkRes [102] 16 0] None None (fun _ => [])) ex_handler false
+  dp_serve (mkCfg false [] [mkRes [102] 16 0] None None (fun _ => []) dp_unescaped_path dp_unescaped_query) ex_handler false
            (mkMsg 0 5 1 [] [(11, [102])] []) = [EvTx true (mkMsg 2 143 1 [] [] [])] /\
   (* proxy option without proxy support *)
   dp_serve ex_cfg ex_handler false (mkMsg 0 1 1 [] [(3, [104]); (11, [97]); (39, [99])] []) =
